@@ -99,7 +99,7 @@ namespace nmtools::view
             }
             return result;
             #else // NMTOOLS_OPENCL_BUILD_KERNELS
-            return reduce_maximum(sliced,None,None,False);
+            return reduce_maximum(sliced,None,None,None,False);
             #endif // NMTOOLS_OPENCL_BUILD_KERNELS
         };
     };
